@@ -12,19 +12,101 @@ TRUST = ("Trusted: rustc MIR -> Kani GOTO translation, CBMC, CaDiCaL, associatio
          "the stubs listed in the evidence, oracle transcriptions of the OASIS tables. Every claim is bounded as listed per harness in the evidence. ")
 
 # property -> (claimed?, level text, note (Out line), design ref, extra technique)
+LEMMA_TECH = TECH + "; z3+cvc5 for arithmetic composition lemmas"
+REC = ("Harnesses named c01_*/c15_close_*/c15_session_*/c15_submit_*/c18_ack_timeouts_fire/c18_close_retry_* replace complete_operation_as_success/failure by recorders: "
+       "they decide WHICH operation is completed with WHICH acknowledgement/error and how often, not what the two completion functions do internally. ")
+
 CLAIMED = {
+    "C01": ("Selection level only. For every acknowledgement type (PUBACK, successful/failing PUBREC, PUBCOMP, SUBACK, UNSUBACK in both protocol versions) with a symbolic packet id "
+            "against an engine holding a pending publish and a pending subscribe/unsubscribe (symbolic ids): the handler completes exactly the pending operation of its own type "
+            "that was sent with that id, once, with that acknowledgement and one reason code per entry; a foreign, mistyped, unknown, early or miscounted acknowledgement completes "
+            "nothing and is a protocol error. Operations at disconnection, at session loss, at submission while offline and at ack-timeout are completed (failed) exactly when the "
+            "specification says so (shared with C15/C18).",
+            REC + "Outside the claim: the inside of complete_operation_as_success/failure (removal from the tables, release of the packet id, take() and invocation of the result "
+            "handler -- i.e. 'exactly once' at the callback level), reset(), write-completion handling, and every multi-event history: one symbolic step through the real completion "
+            "functions exhausts memory under CBMC (measured).", "5 C01", TECH),
+    "C02": ("For every client-to-server packet type in both protocol versions the step list produced by the real write_*_encoding_steps is compared item by item with the wire layout "
+            "written from the OASIS specifications (fixed-header flags, Remaining Length = number of bytes that follow, property identifiers and wire types incl. the Subscription "
+            "Identifier as a Variable Byte Integer, length-prefixed fields in order, MQTT5-only fields absent in 3.1.1, empty payload = no payload), with all scalar fields symbolic; "
+            "separately every u32 through encode_vli, the resumable slice step for all offsets/fills, and what each step kind emits through the real process_encoding_step.",
+            "Outside the claim: field lengths other than the concrete ones per shape (the only length-dependent behaviour, VBI sizes and u16 prefixes, is covered by c02_vli and C16's "
+            "length checks); more than one user property / two subscriptions; the Encoder::encode loop over a whole packet (its per-step lemmas and the 4-line guard are proved, the "
+            "loop composition is not machine-checked); which packet the engine chooses to send.", "5 C02", TECH),
+    "C03": ("All reason-code tables against the specification tables for every byte value; decode_vli for all inputs of 0..5 bytes; the framing state machine as per-state step lemmas "
+            "from an arbitrary decoder state (type byte; remaining length with 0..3 buffered continuation bytes incl. rejection of a fourth one for every chunking and rejection of an "
+            "oversize announcement before any body byte is buffered, for any maximum; body accumulation for concrete small lengths with symbolic contents, the body decoder seeing exactly "
+            "the frame once); the driver loop on every 3-byte stream fed whole vs split at every point (same frames, verdict and resumable state); the error state is absorbing.",
+            "Outside the claim: the fifteen body decoders behind decode_packet (replaced by a deterministic recorder in the framing harnesses; the MQTT5 body decoders did not reach a "
+            "verdict within 20 min in the probes), streams longer than 4 bytes in the whole-loop harness (longer streams follow by induction over the step lemmas, an argument on paper), "
+            "bodies longer than 4 bytes.", "5 C03", TECH),
+    "C04": ("Mechanism level: a first transmission is rejected by validation unless DUP=0 and no id; at disconnection every in-flight QoS1/2 publish (awaiting PUBACK/PUBREC, PUBREL queued "
+            "or half encoded, retransmission half encoded, also on a resumed connection) ends exactly once in the retransmission queue with DUP=1, the same id and reservation and its "
+            "PUBREL slot, whatever the policy, never failed; session present keeps it unchanged; session absent restarts it as a fresh publish (DUP=0, no id, PUBREL forgotten) or fails it "
+            "by policy; a successful PUBREC sets the PUBREL slot with the same id (thorough tier).",
+            REC + "Outside the claim: that the sender then emits PUBREL rather than PUBLISH (three lines in service_queue_aux), 'never again after completion', duplicate PUBREC within one "
+            "connection, and the wire history over several connections (service loop not executable symbolically).", "5 C04", TECH),
+    "C05": ("One inbound PUBLISH (symbolic QoS/id/DUP, inbound set of 0..2 symbolic ids) is surfaced iff it is not an unreleased QoS2 id and queues exactly one PUBACK/PUBREC with its id at "
+            "the back of the high-priority queue; PUBREL removes exactly its id and queues one PUBCOMP at the back; session loss clears the set, session resumption keeps it.",
+            "Outside the claim: that the queued acknowledgement is eventually encoded (service loop), dispatch_packet_events in the client, and two-step inbound sequences as single queries "
+            "(thorough-tier stretch harnesses; they follow from the one-step relations).", "5 C05", TECH),
+    "C06": ("acquire_free_packet_id over three symbolic reservations and every cursor position incl. wrap (non-zero, unused, first free at/after the cursor); binding per operation kind and reuse of the "
+            "original id by a retransmission; unbind clears reservation and packet together; reservations survive disconnection and session resumption; session loss releases every id incl. those of "
+            "re-queued subscribes.",
+            "Outside the claim: release of the id when an operation completes (inside complete_operation_*), so 'never leak' is decided for the restart/unbind paths only.", "5 C06", TECH),
+    "C07": ("CONNECT built from every combination of connect options, rejoin policy and connection history (clean start table, fields copied, server-assigned client id reused) and its wire layout (with C02); "
+            "negotiated settings for all 2^11 present/absent CONNACK property combinations; connection-opened queues exactly one CONNECT at the front and arms the deadline, from Disconnected only; "
+            "CONNACK in a wrong state or with a failing code is an error; nothing but the high-priority queue is served before CONNACK and nothing after DISCONNECT is written (dequeue gate, with C08/C09).",
+            "Outside the claim: handle_connack's success path (no verdict within 20 min / 44 GB: a CONNACK arriving before the CONNECT was flushed is a reading-level finding, DESIGN.md D8) and the byte-level "
+            "'exactly one CONNECT first' over a whole connection (service loop).", "5 C07", TECH),
+    "C08": ("For 0..2 queued operations in every queue arrangement and symbolic flow-control state the reported protocol-queue service time is 'now' exactly when dequeue_operation would hand out an operation; "
+            "the connected / pending-CONNACK / pending-DISCONNECT service time equals the minimum of the armed timers (ping due, ping deadline, earliest ack timeout, CONNACK deadline) and 'now' when work is sendable, "
+            "with the write-pending exception.",
+            "Outside the claim: progress of the whole service loop ('never spins', bounded completion against a responsive broker) and the drivers' sleep logic.", "5 C08", TECH),
+    "C09": ("A QoS>0 publish leaves the retransmission/user queue only while the in-flight table is below the (symbolic) receive maximum, also for DUP=1 retransmissions; under one-at-a-time nothing leaves those "
+            "queues while the slow-start counter is non-zero and an ack is pending; a fully written QoS>0 publish adds exactly itself to the in-flight table; slow-start marks/counter equal the interrupted operations.",
+            "Outside the claim: the decrement of the in-flight table when an operation completes (inside complete_operation_*).", "5 C09", TECH),
+    "C10": ("dequeue priority high > retransmission > user, FIFO inside a queue and head-of-line blocking on all two-operation arrangements; sort_operation_deque on contiguous and wrapped ring layouts (sorted, same multiset); "
+            "placement of retained operations at disconnection (front/back) and of submissions (back).",
+            "Outside the claim: byte order on the wire (service loop); rings larger than capacity 8 / more than 4 elements.", "5 C10", TECH),
+    "C11": ("Every harness of every property also proves absence of panics (unwrap/expect/index/overflow/assert) in the real functions it executes for all inputs in its bound; specifically: each inbound packet type in a state "
+            "where it is illegal is a clean error with nothing surfaced/queued; AUTH is rejected; a Halted engine rejects service/data/write-completion/open and keeps unresolved operations intact; extreme configuration values "
+            "(any Duration as ack timeout / ping timeout / back-off period, keep-alive 1..65535) do not panic; decoder robustness as in C03.",
+            "Outside the claim: panics reachable only through event orders across several handlers (CONNACK before the CONNECT was flushed, DESIGN.md D8), the packet dispatcher handle_packet as a whole, and the drivers.", "5 C11", TECH),
+    "C13": ("WebSocket adapter only: MessageCursor::read for every message length 0..6, cursor position and destination length 0..4 copies the next bytes in order and advances exactly; thorough tier: WebsocketStreamWrapper::read over "
+            "two back-to-back messages with tungstenite's read stubbed by its contract.",
+            "Outside the claim (declined): the tokio and threaded event loops, partial-write cursors, thread/task interleavings of submit/close, result delivery through channels -- Kani models neither threads nor the async runtime.", "5 C13", TECH),
+    "C14": ("service_keep_alive for every K in 1..65535, any ping timeout and clock: PINGREQ at the front, deadline = now + min(ping timeout, K/2 exactly), next ping K s later; failure exactly at (never before) the deadline; no second ping while "
+            "one is outstanding; PINGRESP clears the deadline only when one is outstanding in a live state; next-ping extension = max(old, transmission + K) for acknowledged kinds only; K = 0 schedules nothing; PINGREQ wire bytes; one SMT lemma "
+            "for the 'no silent interval longer than K' composition.",
+            "Outside the claim: arming of the first ping inside handle_connack's success path; the service loop actually running at the reported times (C08 covers the reported time).", "5 C14", LEMMA_TECH),
+    "C15": ("The policy decision table for all policies x packet kinds x QoS x engine states against the documented table; order-preserving partition; with completion recorded: at submission while not connected, at disconnection for the "
+            "current operation, the user queue, unflushed QoS0 and unacknowledged subscribe/unsubscribe, and at session loss for the retransmission queue, an operation is kept (and where) iff the policy preserves its kind and otherwise "
+            "failed with the offline-policy error; in-flight QoS1/2 publishes are retained whatever the policy.",
+            REC + "Outside the claim: that a failed operation is never sent later and a kept one is sent after reconnection (service loop / histories).", "5 C15", TECH),
+    "C16": ("validate_*_outbound for PUBLISH/SUBSCRIBE/UNSUBSCRIBE/DISCONNECT with symbolic field lengths 0..70000 and scalars: accepted iff every static rule holds (both directions); validate_*_outbound_internal against symbolic "
+            "negotiated settings with the packet size computed by an independent layout oracle; build_negotiated_settings field by field.",
+            "Outside the claim: topic/filter grammar beyond the fixed-shape thorough harnesses (str::split on symbolic content did not finish), scanned fields of 5..65535 bytes, the engine calling the validators at the right moments. "
+            "One recorded known finding: subscription_identifiers_available is never consulted (known_findings.json).", "5 C16", TECH),
+    "C17": ("Manual and LRU outbound resolvers (LRU with configured size above/below the server's maximum) over all publish sequences of length 3-4 on three topics, checked against a model of the server's alias table: no alias 0 or above the "
+            "negotiated maximum, empty topic only for an alias the server has bound to exactly that topic on this connection, nothing with maximum 0, bindings do not survive reset; inbound resolver over all sequences of length 3 incl. a reconnect; "
+            "PUBLISH wire layout for the three resolution outcomes and for 3.1.1 (with C02).",
+            "Outside the claim: resolver state vs what reached the wire when an operation fails validation after alias resolution (DESIGN.md D10; needs service_queue_aux); lru::LruCache itself (replaced by its contract model).", "5 C17", TECH),
+    "C18": ("start_operation_ack_timeout records (operation, now + T) iff the operation carries a representable timeout, for any Duration; get_next_ack_timeout / process_ack_timeouts fail exactly the records whose deadline has passed, earliest "
+            "first, never before the deadline; interruption counting increments exactly the written-but-unacknowledged operations when a limit is set; the (N+1)-th interruption fails with the retries-exceeded error, fewer do not.",
+            REC + "Outside the claim: 'never if the acknowledgement arrived first' (a stale heap record meets complete_operation_as_failure's 'does not exist' branch, inside the stubbed function).", "5 C18", TECH),
     "C19": ("For every base/max/stability Duration and both jitter modes the solver decides: normalize() yields the swapped/raised pair; one "
             "back-off step from any period in [base,max] returns the current period (or, under rand's contract, a value at most that) and stores "
             "min(2*period, max) without panicking; the first two waits after MqttClientImpl::new are the normalized base and its clamped double. "
             "Two SMT lemmas lift the one-step relation to the closed form min(base*2^k, max).",
             "Outside the claim: the reset-after-stability rule (three lines in transition_to_state, which drives the engine entry points); the inside of "
             "compute_uniform_jitter_period (replaced by rand's documented gen_range contract).",
-            "5 C19", TECH + "; z3+cvc5 for two arithmetic composition lemmas"),
+            "5 C19", LEMMA_TECH),
+    "C20": ("apply_aws_defaults over every combination of protocol mode / user-set drain policy / retry limit with all other client options symbolic and preserved; build_final_connect_options keeps the user's client id or generates a "
+            "non-empty one and preserves the scalar connect options and custom-auth credentials; thorough tier: the custom-auth query string for 2-byte signatures over {a,+,/,=} with real formatting.",
+            "Outside the claim: strings longer than 2 bytes in the query-string harness, pre-encoded signatures, TLS/transport set-up; uuid generation/formatting (stubbed).", "5 C20", TECH),
 }
 
 NOT_APPLICABLE = {
-    "C01": "exactly-once resolution lives in the completion paths (complete_operation_as_*, ack handlers, reset) and in multi-event histories; "
-           "one symbolic step through any of them exhausts 62 GB under Kani/CBMC (measured, DESIGN.md section 3), so solver-based checking of the real code cannot decide it here",
     "C12": "about the tokio/threaded event loops and transition_to_state driving the engine entry points and Arc<dyn Fn> listeners; Kani models neither "
            "tasks/threads nor those entry points within memory; only the pure transition-decision table is reachable, which does not decide the property",
 }
